@@ -77,6 +77,17 @@ def check_sampler(res, c):
     cl = m.clone()
     for path, a, b in snapshot.diff(S_syn["module"], build.norm_module(snapshot.snap_module(cl, "synth"), "after"))[:3]:
         res.violation(f"C16:clone:{snapshot.field_key(path)}", f"{path}: original {a}, clone {b}", desc)
+    import copy as _copy
+    import pickle as _pickle
+    how = ("pickle", "deepcopy", "copy")[c.index % 3]
+    try:
+        twin = {"pickle": lambda o: _pickle.loads(_pickle.dumps(o)), "deepcopy": _copy.deepcopy, "copy": _copy.copy}[how](s2.module)
+        raw_twin = api.Synth(twin).read()
+        res.count("copied_instrument_saves")
+        if raw_twin != s2.read():
+            res.violation(f"C16:copied-instrument:{how}", f"a {how} copy of the loaded sampler saves different bytes than the sampler itself", dict(desc, copy=how))
+    except Exception as e:
+        res.violation(f"C16:copied-instrument-raises:{how}:{workload.exc_key(e)}", f"a {how} copy of the loaded sampler cannot be saved: {e!r}", dict(desc, copy=how))
     p = api.Project()
     p.attach_module(m)
     Sp = build.norm_module(snapshot.snap_module(m, "project"), "before")
@@ -243,6 +254,21 @@ def check_legacy(res, chunks, rng, k):
         o2 = workload.load(raw2)
     except Exception as e:
         res.violation(f"C16:legacy-resave:{kind}:{workload.exc_key(e)}", f"re-saving the loaded legacy variant ({kind}) failed: {e!r}", desc)
+        return
+    # the loaded instrument handed on as applications do (pickled to a worker, deep-copied for undo, shallow-copied): the copy
+    # saves the same instrument
+    import copy
+    import pickle
+    how = ("pickle", "deepcopy", "copy")[k % 3]
+    try:
+        twin = {"pickle": lambda o: pickle.loads(pickle.dumps(o)), "deepcopy": copy.deepcopy, "copy": copy.copy}[how](o1)
+        raw_twin = twin.read()
+        res.count("copied_instrument_saves")
+    except Exception as e:
+        res.violation(f"C16:copied-instrument-raises:{how}:{workload.exc_key(e)}", f"{kind}: a {how} copy of the loaded instrument cannot be saved: {e!r}", dict(desc, copy=how))
+        return
+    if raw_twin != raw2:
+        res.violation(f"C16:copied-instrument:{how}", f"{kind}: a {how} copy of the loaded instrument saves {len(raw_twin)} bytes, the instrument itself {len(raw2)}", dict(desc, copy=how))
         return
     S2 = snapshot.snap_synth(o2)
     # version stamps are not instrument data (the legacy replay re-emits the embedded effect's original stamp)
